@@ -39,7 +39,7 @@ def make_cases(beh, kind, sizes_of, run, allq=0, zq=0, vmap="int", extra=None, k
             # a sixth of the files get their items through a text file and the real line reader / parser (bedGraph / BED text):
             # LF or CRLF line ends, last line terminated or not
             c["src"], c["eol"], c["final_nl"] = "text", ["lf", "crlf"][(k // 6) % 2], (k // 12) % 2
-        if k % 25 == 9 and o["sort"] == "all":
+        if k % (100 if run.thorough else 25) == 9 and o["sort"] == "all":
             # read back from "the same file as a big-endian machine would hold it" (see judge).  Only for inputs in chromosome-name order:
             # the re-laid-out chromosome tree is key-sorted, which changes the order of the table (not a property) when the writer's is not
             c["swap"] = 1
